@@ -22,7 +22,7 @@ PROP = {
  "C14": ["an empty filter", "ResultsPage of an empty", "sorting raised TypeError", "collapse keys 0", "collapsed_counts did not",
          "overlapping facets crashed", "NUMERIC(float, sortable=True)", "ignored the limit with groupedby", "collapse with collapse_order",
          "reversed sort on a text column", "grouped under the column default"],
- "C15": ["And([q, Every()])", "DisjunctionMax.normalize()", "simplify() raised TypeError on", "Wildcard.normalize()", "Sequence/Ordered lost",
+ "C15": ["contains a query type without a boost", "Sequence queries differing only in slop", "And([q, Every()])", "DisjunctionMax.normalize()", "simplify() raised TypeError on", "Wildcard.normalize()", "Sequence/Ordered lost",
          "estimate_size() raised", "FuzzyTerm.simplify()", "NestedParent, NestedChildren", "an unfielded Every()", "Or([NestedParent"],
  "C16": ['"a NOT AND b"', '"a ANDNOT ANDNOT b"', '"a (+b)"', "a range the field cannot interpret", "a quoted value on a BOOLEAN",
          "GtLtPlugin raised", "unparseable text on a DATETIME", "an empty quoted sequence", "an invalid regular expression",
